@@ -5,6 +5,17 @@ class SameID:
   def _process_not_unique(self, previous):
     if previous.record_type != self.record_type:
       return super()._process_not_unique(previous)
+    # check the tags first, so that nothing is merged if they are inconsistent
+    for tag in previous.tagnames:
+      prv = previous.get(tag)
+      cur = self.get(tag)
+      if cur and cur != prv:
+        raise gfapy.NotUniqueError(
+          "Same tag defined differently in "+
+          "multiple group lines with same ID\n"+
+          "Previous tag definition: {}\n".format(prv)+
+          "New tag definition: {}\n".format(cur)+
+          "Group ID: {}".format(self.name))
     self._gfa = previous.gfa
     self._initialize_references()
     cur_items = self.get("items")
